@@ -1,8 +1,672 @@
-//! Independent image builder (foreign volumes).  Filled in later.
-use serde_json::Value;
+//! Independent image builder: turns an abstract volume description (the ground truth) plus
+//! encoding choices into bytes, using every freedom of the FAT specification the library's own
+//! writer never uses.  Shares no code with fatfs.  Returns the image and the ground truth as the
+//! list of facts a reader must report.
+use std::cell::RefCell;
+use std::collections::{HashMap, HashSet};
 
+use serde_json::{json, Value};
+
+use crate::decode::cells;
 use crate::dev::Image;
 
-pub fn build(_vol: &Value) -> Result<Image, String> {
-    Err("builder not implemented".into())
+thread_local! {
+    pub static TRUTH: RefCell<HashMap<String, Value>> = RefCell::new(HashMap::new());
+}
+
+fn u(v: &Value, k: &str, d: u64) -> u64 {
+    v.get(k).and_then(Value::as_u64).unwrap_or(d)
+}
+
+fn pattern(pat: u64, len: usize) -> Vec<u8> {
+    (0..len).map(|j| ((pat as usize * 31 + j * 7 + (j >> 8) * 3) % 251 + 1) as u8).collect()
+}
+
+struct Lay {
+    ft: u32,
+    bps: u64,
+    spc: u64,
+    rsvd: u64,
+    nfats: u64,
+    rootn: u64,
+    n: u64,
+    spf: u64,
+    rootsecs: u64,
+    first_data: u64,
+    total: u64,
+}
+
+impl Lay {
+    fn cs(&self) -> u64 {
+        self.bps * self.spc
+    }
+    fn clu_off(&self, c: u64) -> u64 {
+        (self.first_data + (c - 2) * self.spc) * self.bps
+    }
+    fn root_off(&self) -> u64 {
+        (self.rsvd + self.nfats * self.spf) * self.bps
+    }
+    fn fat_off(&self, k: u64) -> u64 {
+        (self.rsvd + k * self.spf) * self.bps
+    }
+    fn eoc_max(&self) -> u32 {
+        match self.ft {
+            12 => 0xFFF,
+            16 => 0xFFFF,
+            _ => 0x0FFF_FFFF,
+        }
+    }
+    fn bad(&self) -> u32 {
+        self.eoc_max() - 8
+    }
+}
+
+struct Fat {
+    /// cluster -> (value, hi nibble)
+    ent: HashMap<u64, (u32, u32)>,
+}
+
+struct Alloc {
+    free: Vec<u64>, // in allocation order (pop from the front)
+    /// huge volumes: ascending on demand instead of a materialised list
+    lazy: Option<(u64, u64, HashSet<u64>)>, // (next, end, taken)
+}
+
+impl Alloc {
+    fn new(n: u64, policy: &str, taken: &HashSet<u64>, seed: u64) -> Alloc {
+        if n > 1_000_000 {
+            return Alloc { free: Vec::new(), lazy: Some((2, n + 2, taken.clone())) };
+        }
+        let mut v: Vec<u64> = (2..n + 2).filter(|c| !taken.contains(c)).collect();
+        match policy {
+            "desc" => v.reverse(),
+            "interleave" => {
+                let (a, b): (Vec<u64>, Vec<u64>) = v.iter().partition(|c| *c % 2 == 0);
+                let mut out = Vec::new();
+                let mut bi = b.into_iter().rev();
+                for x in a {
+                    out.push(x);
+                    if let Some(y) = bi.next() {
+                        out.push(y);
+                    }
+                }
+                out.extend(bi);
+                v = out;
+            }
+            "random" => {
+                let mut s = seed | 1;
+                for i in (1..v.len()).rev() {
+                    s ^= s << 13;
+                    s ^= s >> 7;
+                    s ^= s << 17;
+                    v.swap(i, (s % (i as u64 + 1)) as usize);
+                }
+            }
+            _ => {}
+        }
+        Alloc { free: v, lazy: None }
+    }
+    fn take(&mut self, k: usize, explicit: Option<&Vec<Value>>) -> Result<Vec<u64>, String> {
+        if let Some((next, end, taken)) = self.lazy.as_mut() {
+            if let Some(ch) = explicit {
+                let want: Vec<u64> = ch.iter().filter_map(Value::as_u64).collect();
+                for c in &want {
+                    if *c < 2 || *c >= *end || !taken.insert(*c) {
+                        return Err(format!("explicit cluster {} not available", c));
+                    }
+                }
+                return Ok(want);
+            }
+            let mut out = Vec::new();
+            while out.len() < k {
+                if *next >= *end {
+                    return Err("volume too small for the described tree".into());
+                }
+                if taken.insert(*next) {
+                    out.push(*next);
+                }
+                *next += 1;
+            }
+            return Ok(out);
+        }
+        if let Some(ch) = explicit {
+            let want: Vec<u64> = ch.iter().filter_map(Value::as_u64).collect();
+            for c in &want {
+                match self.free.iter().position(|x| x == c) {
+                    Some(p) => {
+                        self.free.remove(p);
+                    }
+                    None => return Err(format!("explicit cluster {} not available", c)),
+                }
+            }
+            return Ok(want);
+        }
+        if self.free.len() < k {
+            return Err("volume too small for the described tree".into());
+        }
+        Ok(self.free.drain(..k).collect())
+    }
+}
+
+fn lfn_checksum(raw: &[u8]) -> u8 {
+    let mut c: u8 = 0;
+    for b in raw {
+        c = ((c & 1) << 7).wrapping_add(c >> 1).wrapping_add(*b);
+    }
+    c
+}
+
+fn sfn_bytes(v: &Value) -> Vec<u8> {
+    if let Some(s) = v.as_str() {
+        let mut b = s.as_bytes().to_vec();
+        b.resize(11, b' ');
+        b
+    } else if let Some(a) = v.as_array() {
+        let mut b: Vec<u8> = a.iter().map(|x| x.as_u64().unwrap_or(32) as u8).collect();
+        b.resize(11, b' ');
+        b
+    } else {
+        b"NONAME     ".to_vec()
+    }
+}
+
+fn sfn_slot(raw: &[u8], attr: u8, nt: u8, cl: u64, size: u64, ct: (u16, u16, u8), mt: (u16, u16), ad: u16) -> [u8; 32] {
+    let mut s = [0u8; 32];
+    s[..11].copy_from_slice(&raw[..11]);
+    s[11] = attr;
+    s[12] = nt;
+    s[13] = ct.2;
+    s[14..16].copy_from_slice(&ct.1.to_le_bytes());
+    s[16..18].copy_from_slice(&ct.0.to_le_bytes());
+    s[18..20].copy_from_slice(&ad.to_le_bytes());
+    s[20..22].copy_from_slice(&(((cl >> 16) & 0xFFFF) as u16).to_le_bytes());
+    s[22..24].copy_from_slice(&mt.1.to_le_bytes());
+    s[24..26].copy_from_slice(&mt.0.to_le_bytes());
+    s[26..28].copy_from_slice(&((cl & 0xFFFF) as u16).to_le_bytes());
+    s[28..32].copy_from_slice(&(size as u32).to_le_bytes());
+    s
+}
+
+pub fn lfn_slot(ord: u8, chk: u8, units: &[u16], ty: u8, cl: u16, attr: u8) -> [u8; 32] {
+    let mut s = [0u8; 32];
+    s[0] = ord;
+    for k in 0..5 {
+        s[1 + 2 * k..3 + 2 * k].copy_from_slice(&units[k].to_le_bytes());
+    }
+    s[11] = attr;
+    s[12] = ty;
+    s[13] = chk;
+    for k in 0..6 {
+        s[14 + 2 * k..16 + 2 * k].copy_from_slice(&units[5 + k].to_le_bytes());
+    }
+    s[26..28].copy_from_slice(&cl.to_le_bytes());
+    for k in 0..2 {
+        s[28 + 2 * k..30 + 2 * k].copy_from_slice(&units[11 + k].to_le_bytes());
+    }
+    s
+}
+
+/// slots of a well-formed long-name run for `name` (first slot on disk = last part)
+fn lfn_run(name: &[u16], chk: u8) -> Vec<[u8; 32]> {
+    let n = (name.len() + 12) / 13;
+    let mut padded: Vec<u16> = name.to_vec();
+    if padded.len() % 13 != 0 {
+        padded.push(0);
+        while padded.len() % 13 != 0 {
+            padded.push(0xFFFF);
+        }
+    }
+    let mut out = Vec::new();
+    for k in (0..n).rev() {
+        let ord = (k as u8 + 1) | if k == n - 1 { 0x40 } else { 0 };
+        out.push(lfn_slot(ord, chk, &padded[k * 13..k * 13 + 13], 0, 0, 0x0F));
+    }
+    out
+}
+
+fn dos_date(v: Option<&Value>, dflt: u16) -> u16 {
+    v.and_then(Value::as_u64).map(|x| x as u16).unwrap_or(dflt)
+}
+
+fn decode_date(d: u16) -> Value {
+    json!([(d >> 9) + 1980, (d >> 5) & 0xF, d & 0x1F])
+}
+
+fn decode_dt(d: u16, t: u16, tenths: u8) -> Value {
+    json!([(d >> 9) + 1980, (d >> 5) & 0xF, d & 0x1F, t >> 11, (t >> 5) & 0x3F, (t & 0x1F) * 2 + u16::from(tenths / 100), u16::from(tenths % 100) * 10])
+}
+
+fn display_name(raw: &[u8], nt: u8, oem: &str) -> Vec<u16> {
+    let mut r = raw.to_vec();
+    if nt & 0x08 != 0 {
+        for b in r[..8].iter_mut() {
+            b.make_ascii_lowercase();
+        }
+    }
+    if nt & 0x10 != 0 {
+        for b in r[8..11].iter_mut() {
+            b.make_ascii_lowercase();
+        }
+    }
+    let base_len = r[..8].iter().rposition(|x| *x != b' ').map_or(0, |p| p + 1);
+    let ext_len = r[8..11].iter().rposition(|x| *x != b' ').map_or(0, |p| p + 1);
+    let mut out: Vec<u8> = r[..base_len].to_vec();
+    if !out.is_empty() && out[0] == 0x05 {
+        out[0] = 0xE5;
+    }
+    if ext_len > 0 {
+        out.push(b'.');
+        out.extend_from_slice(&r[8..8 + ext_len]);
+    }
+    out.iter().map(|b| if *b < 0x80 { u16::from(*b) } else if oem == "latin1" { u16::from(*b) } else { 0xFFFD }).collect()
+}
+
+struct Ctx<'a> {
+    lay: &'a Lay,
+    img: Image,
+    fat: Fat,
+    alloc: Alloc,
+    eocs: Vec<u32>,
+    eoc_i: usize,
+    hi_mode: String,
+    truth: Vec<Value>,
+    cell: usize,
+    oem: String,
+}
+
+impl Ctx<'_> {
+    fn link(&mut self, chain: &[u64]) {
+        for (i, c) in chain.iter().enumerate() {
+            let v = if i + 1 < chain.len() {
+                chain[i + 1] as u32
+            } else {
+                let e = self.eocs[self.eoc_i % self.eocs.len()];
+                self.eoc_i += 1;
+                e
+            };
+            let hi = if self.lay.ft == 32 && self.hi_mode == "pattern" { ((*c * 7 + 3) % 16) as u32 } else { 0 };
+            self.fat.ent.insert(*c, (v, hi));
+        }
+    }
+
+    /// lays out one directory; returns nothing, appends truth facts
+    fn dir(&mut self, entries: &[Value], path: &[Vec<u16>], own: Option<(&[u64], u64)>, fixed_root: bool, noend: bool) -> Result<(), String> {
+        // own = (chain, parent cluster for "..") for cluster directories
+        let mut slots: Vec<[u8; 32]> = Vec::new();
+        let cs = self.lay.cs();
+        if let Some((chain, parent)) = own {
+            if !path.is_empty() {
+                let dot = sfn_slot(b".          ", 0x10, 0, chain[0], 0, (0x5021, 0x6000, 0), (0x5021, 0x6000), 0x5021);
+                let dotdot = sfn_slot(b"..         ", 0x10, 0, parent, 0, (0x5021, 0x6000, 0), (0x5021, 0x6000), 0x5021);
+                slots.push(dot);
+                slots.push(dotdot);
+            }
+        }
+        // children are laid out after this directory's slots are known (clusters allocated first)
+        let mut pending: Vec<(Vec<Value>, Vec<Vec<u16>>, Vec<u64>, bool)> = Vec::new();
+        for e in entries {
+            let kind = e.get("kind").and_then(Value::as_str).unwrap_or("f");
+            let raw = sfn_bytes(e.get("sfn").unwrap_or(&Value::Null));
+            let nt = u(e, "nt", 0) as u8;
+            let mut attr = u(e, "attr", if kind == "d" { 0x10 } else if kind == "v" { 0x08 } else { 0x20 }) as u8;
+            if kind == "d" {
+                attr |= 0x10;
+            }
+            // junk before the entry
+            if let Some(pre) = e.get("pre").and_then(Value::as_array) {
+                for j in pre {
+                    match j.get("t").and_then(Value::as_str).unwrap_or("del") {
+                        "del" => {
+                            let mut s = [0u8; 32];
+                            s[0] = 0xE5;
+                            for k in 1..32 {
+                                s[k] = (u(j, "fill", 0x41) as u8).wrapping_add(k as u8);
+                            }
+                            s[11] = u(j, "attr", 0x20) as u8;
+                            slots.push(s);
+                        }
+                        "raw" => {
+                            let mut s = [0u8; 32];
+                            if let Some(b) = j.get("b").and_then(Value::as_array) {
+                                for (k, x) in b.iter().take(32).enumerate() {
+                                    s[k] = x.as_u64().unwrap_or(0) as u8;
+                                }
+                            }
+                            slots.push(s);
+                        }
+                        "orphan" => {
+                            // a long-name run that belongs to nothing (deleted owner): slots marked deleted
+                            let name: Vec<u16> = j.get("name").and_then(Value::as_str).unwrap_or("orphan").encode_utf16().collect();
+                            for mut s in lfn_run(&name, u(j, "chk", 0x55) as u8) {
+                                if j.get("live").and_then(Value::as_bool) != Some(true) {
+                                    s[0] = 0xE5;
+                                }
+                                slots.push(s);
+                            }
+                        }
+                        _ => {}
+                    }
+                }
+            }
+            let ct = (dos_date(e.get("cd"), 0x5021), dos_date(e.get("ctm"), 0x6000), u(e, "cth", 0) as u8);
+            let mt = (dos_date(e.get("md"), 0x5021), dos_date(e.get("mtm"), 0x6000));
+            let ad = dos_date(e.get("ad"), 0x5021);
+            let long: Option<Vec<u16>> = e.get("name").and_then(Value::as_str).map(|s| s.encode_utf16().collect());
+            let shown: Vec<u16> = match &long {
+                Some(l) => l.clone(),
+                None => display_name(&raw, nt, &self.oem),
+            };
+            let mut p: Vec<Vec<u16>> = path.to_vec();
+            p.push(shown.clone());
+            if let Some(l) = &long {
+                let chk = lfn_checksum(&raw);
+                for s in lfn_run(l, chk) {
+                    slots.push(s);
+                }
+            }
+            match kind {
+                "v" => {
+                    slots.push(sfn_slot(&raw, attr, nt, 0, 0, ct, mt, ad));
+                }
+                "d" => {
+                    let kids: Vec<Value> = e.get("children").and_then(Value::as_array).cloned().unwrap_or_default();
+                    // size the directory: dot entries + each child (junk + lfn + sfn) + END, rounded up
+                    let mut need = 2u64;
+                    for k in &kids {
+                        need += 1 + k.get("name").and_then(Value::as_str).map_or(0, |s| (s.encode_utf16().count() as u64 + 12) / 13);
+                        need += k.get("pre").and_then(Value::as_array).map_or(0, |a| a.len() as u64 * 4);
+                    }
+                    let extra = u(e, "extra_clusters", 0);
+                    let k = ((need + 1) * 32 + cs - 1) / cs + extra;
+                    let chain = self.alloc.take(k as usize, e.get("chain").and_then(Value::as_array))?;
+                    self.link(&chain);
+                    slots.push(sfn_slot(&raw, attr, nt, chain[0], 0, ct, mt, ad));
+                    self.truth.push(json!({"p": p, "k": "d", "at": attr, "ct": decode_dt(ct.0, ct.1, ct.2), "mt": decode_dt(mt.0, mt.1, 0), "ad": decode_date(ad), "c": []}));
+                    pending.push((kids, p, chain, e.get("noend").and_then(Value::as_bool).unwrap_or(false)));
+                }
+                _ => {
+                    let size = u(e, "size", 0);
+                    let data = pattern(u(e, "pat", 1), size as usize);
+                    let k = ((size + cs - 1) / cs) as usize;
+                    let chain = if k > 0 { self.alloc.take(k, e.get("chain").and_then(Value::as_array))? } else { Vec::new() };
+                    self.link(&chain);
+                    for (i, c) in chain.iter().enumerate() {
+                        let lo = i * cs as usize;
+                        let hi = ((i + 1) * cs as usize).min(data.len());
+                        self.img.write_at(self.lay.clu_off(*c), &data[lo..hi]);
+                        // slack after the end of the file inside its last cluster: arbitrary bytes are legal
+                        if hi - lo < cs as usize && e.get("slack").and_then(Value::as_bool) == Some(true) {
+                            let junk = vec![0xCCu8; cs as usize - (hi - lo)];
+                            self.img.write_at(self.lay.clu_off(*c) + (hi - lo) as u64, &junk);
+                        }
+                    }
+                    slots.push(sfn_slot(&raw, attr, nt, chain.first().copied().unwrap_or(0), size, ct, mt, ad));
+                    self.truth.push(json!({"p": p, "k": "f", "at": attr, "sz": size, "ct": decode_dt(ct.0, ct.1, ct.2), "mt": decode_dt(mt.0, mt.1, 0),
+                                           "ad": decode_date(ad), "c": cells(&data, self.cell), "chain": chain}));
+                }
+            }
+        }
+        // write the slots
+        let cap: u64 = if fixed_root { self.lay.rootn } else { own.map_or(0, |(ch, _)| ch.len() as u64 * cs / 32) };
+        if slots.len() as u64 > cap {
+            return Err(format!("directory needs {} slots, has {}", slots.len(), cap));
+        }
+        for (i, s) in slots.iter().enumerate() {
+            let off = if fixed_root {
+                self.lay.root_off() + i as u64 * 32
+            } else {
+                let ch = own.unwrap().0;
+                let per = cs / 32;
+                self.lay.clu_off(ch[(i as u64 / per) as usize]) + (i as u64 % per) * 32
+            };
+            self.img.write_at(off, s);
+        }
+        // a directory may fill its last cluster completely: no END marker then (deleted slots as filler)
+        if noend {
+            for i in slots.len() as u64..cap {
+                let mut s = [0x2Eu8; 32];
+                s[0] = 0xE5;
+                s[11] = 0x20;
+                let off = if fixed_root {
+                    self.lay.root_off() + i * 32
+                } else {
+                    let ch = own.unwrap().0;
+                    let per = cs / 32;
+                    self.lay.clu_off(ch[(i / per) as usize]) + (i % per) * 32
+                };
+                self.img.write_at(off, &s);
+            }
+        }
+        for (kids, p, chain, kid_noend) in pending {
+            // ".." of a directory whose parent is the root is 0 (also on FAT32)
+            let up = if path.is_empty() { 0 } else { own.map_or(0, |(ch, _)| ch[0]) };
+            self.dir(&kids, &p, Some((&chain, up)), false, kid_noend)?;
+        }
+        Ok(())
+    }
+}
+
+pub fn build(vol: &Value) -> Result<Image, String> {
+    let ft = u(vol, "ft", 12) as u32;
+    let bps = u(vol, "bps", 512);
+    let spc = u(vol, "spc", 1);
+    let nfats = u(vol, "nfats", 2);
+    let rsvd = u(vol, "rsvd", if ft == 32 { 32 } else { 1 });
+    let rootn = if ft == 32 { 0 } else { u(vol, "rootn", 32) };
+    let n = u(vol, "n", 40);
+    let bits = u64::from(ft);
+    let extra_fat = u(vol, "extra_fat_sectors", 0);
+    let spf = ((n + 2) * bits + 7) / 8;
+    let spf = (spf + bps - 1) / bps + extra_fat;
+    let rootsecs = (rootn * 32 + bps - 1) / bps;
+    let first_data = rsvd + nfats * spf + rootsecs;
+    let slack = u(vol, "slack_sectors", 0);
+    let total = first_data + n * spc + slack;
+    if slack >= spc {
+        return Err("slack_sectors must be smaller than a cluster (it would add clusters)".into());
+    }
+    if total > 0xFFFF_FFFF {
+        return Err("volume too large".into());
+    }
+    let expect_ft = if n < 4085 { 12 } else if n < 65525 { 16 } else { 32 };
+    if expect_ft != ft {
+        return Err(format!("{} clusters make FAT{}, not FAT{}", n, expect_ft, ft));
+    }
+    let lay = Lay { ft, bps, spc, rsvd, nfats, rootn, n, spf, rootsecs, first_data, total };
+    let tail = u(vol, "tail", 0);
+    let mut img = Image::new(total * bps + tail);
+    if tail > 0 {
+        img.fill(total * bps, tail.min(1 << 16), 0xA5);
+    }
+    // ---- boot sector
+    let mut b = vec![0u8; 512];
+    b[0] = 0xEB;
+    b[1] = 0x3C;
+    b[2] = 0x90;
+    b[3..11].copy_from_slice(b"FOREIGN ");
+    b[11..13].copy_from_slice(&(bps as u16).to_le_bytes());
+    b[13] = spc as u8;
+    b[14..16].copy_from_slice(&(rsvd as u16).to_le_bytes());
+    b[16] = nfats as u8;
+    b[17..19].copy_from_slice(&(rootn as u16).to_le_bytes());
+    let use16 = vol.get("use_ts16").and_then(Value::as_bool).unwrap_or(total < 0x10000) && total < 0x10000 && ft != 32;
+    if use16 {
+        b[19..21].copy_from_slice(&(total as u16).to_le_bytes());
+    } else {
+        b[32..36].copy_from_slice(&(total as u32).to_le_bytes());
+    }
+    let media = u(vol, "media", 0xF8) as u8;
+    b[21] = media;
+    b[24..26].copy_from_slice(&63u16.to_le_bytes());
+    b[26..28].copy_from_slice(&255u16.to_le_bytes());
+    b[28..32].copy_from_slice(&(u(vol, "hidden", 0) as u32).to_le_bytes());
+    let status = u(vol, "status", 0) as u8;
+    let mirror = vol.get("mirror").and_then(Value::as_bool).unwrap_or(true);
+    let active = u(vol, "active", 0);
+    let rootc = u(vol, "rootc", 2);
+    let fis = u(vol, "fis", 1);
+    let bks = u(vol, "bks", 6);
+    if ft == 32 {
+        b[36..40].copy_from_slice(&(spf as u32).to_le_bytes());
+        let extf: u16 = if mirror { 0 } else { 0x80 | (active as u16 & 0x0F) };
+        b[40..42].copy_from_slice(&extf.to_le_bytes());
+        b[44..48].copy_from_slice(&(rootc as u32).to_le_bytes());
+        b[48..50].copy_from_slice(&(fis as u16).to_le_bytes());
+        b[50..52].copy_from_slice(&(bks as u16).to_le_bytes());
+        b[64] = 0x80;
+        b[65] = status;
+        b[66] = 0x29;
+        b[67..71].copy_from_slice(&0xCAFE_F00Du32.to_le_bytes());
+        b[71..82].copy_from_slice(b"FOREIGNVOL ");
+        b[82..90].copy_from_slice(b"FAT32   ");
+    } else {
+        b[22..24].copy_from_slice(&(spf as u16).to_le_bytes());
+        b[36] = 0x80;
+        b[37] = status;
+        b[38] = 0x29;
+        b[39..43].copy_from_slice(&0xCAFE_F00Du32.to_le_bytes());
+        b[43..54].copy_from_slice(b"FOREIGNVOL ");
+        b[54..62].copy_from_slice(if ft == 12 { b"FAT12   " } else { b"FAT16   " });
+    }
+    // boot code area: non-zero filler (must never be touched)
+    for k in 90..510 {
+        b[k] = (k % 251) as u8 | 1;
+    }
+    b[510] = 0x55;
+    b[511] = 0xAA;
+    img.write_at(0, &b);
+    // other reserved sectors: a recognisable filler so that stray writes are seen
+    for s in 1..rsvd {
+        if ft == 32 && (s == fis || s == bks) {
+            continue;
+        }
+        let filler = vec![(0x30 + (s % 64)) as u8; bps as usize];
+        img.write_at(s * bps, &filler);
+    }
+    if ft == 32 && bks != 0 && bks < rsvd {
+        img.write_at(bks * bps, &b);
+    }
+    // ---- tree
+    let taken: HashSet<u64> = {
+        let mut t = HashSet::new();
+        if let Some(bad) = vol.get("bad").and_then(Value::as_array) {
+            for r in bad {
+                for c in r[0].as_u64().unwrap_or(0)..=r[1].as_u64().unwrap_or(0) {
+                    t.insert(c);
+                }
+            }
+        }
+        t
+    };
+    let eocs: Vec<u32> = vol
+        .get("eoc")
+        .and_then(Value::as_array)
+        .map(|a| a.iter().filter_map(Value::as_u64).map(|x| x as u32).collect())
+        .filter(|v: &Vec<u32>| !v.is_empty())
+        .unwrap_or_else(|| vec![lay.eoc_max()]);
+    let tree: Vec<Value> = vol.get("tree").and_then(Value::as_array).cloned().unwrap_or_default();
+    let mut ctx = Ctx {
+        lay: &lay,
+        img,
+        fat: Fat { ent: HashMap::new() },
+        alloc: Alloc::new(n, vol.get("alloc").and_then(Value::as_str).unwrap_or("asc"), &taken, u(vol, "seed", 1)),
+        eocs,
+        eoc_i: 0,
+        hi_mode: vol.get("hi").and_then(Value::as_str).unwrap_or("none").to_string(),
+        truth: Vec::new(),
+        cell: u(vol, "cell", 1) as usize,
+        oem: vol.get("oem").and_then(Value::as_str).unwrap_or("lossy").to_string(),
+    };
+    if ft == 32 {
+        // the root directory is a chain starting at rootc
+        let mut need = 1u64;
+        for k in &tree {
+            need += 1 + k.get("name").and_then(Value::as_str).map_or(0, |s| (s.encode_utf16().count() as u64 + 12) / 13);
+            need += k.get("pre").and_then(Value::as_array).map_or(0, |a| a.len() as u64 * 4);
+        }
+        let k = ((need + 1) * 32 + lay.cs() - 1) / lay.cs() + u(vol, "root_extra_clusters", 0);
+        let mut chain = ctx.alloc.take(1, Some(&vec![json!(rootc)]))?;
+        if k > 1 {
+            chain.extend(ctx.alloc.take(k as usize - 1, None)?);
+        }
+        ctx.link(&chain);
+        ctx.dir(&tree, &[], Some((&chain, 0)), false, vol.get("root_noend").and_then(Value::as_bool).unwrap_or(false))?;
+    } else {
+        ctx.dir(&tree, &[], None, true, vol.get("root_noend").and_then(Value::as_bool).unwrap_or(false))?;
+    }
+    // ---- tables
+    let eoc1 = u(vol, "e1", u64::from(lay.eoc_max())) as u32;
+    let mut img = ctx.img;
+    let pad_zero = vol.get("pad").and_then(Value::as_str) == Some("zero");
+    let free_hi = u(vol, "free_hi", 0) as u32; // high nibble stored in free FAT32 entries
+    let entries_per_fat = spf * bps * 8 / bits;
+    for k in 0..nfats {
+        let real = mirror || k == active;
+        let base = lay.fat_off(k);
+        let set = |img: &mut Image, c: u64, v: u32, hi: u32| match ft {
+            12 => {
+                let o = base + c + c / 2;
+                let w = img.u16_at(o);
+                let nw = if c & 1 == 0 { (w & 0xF000) | (v as u16 & 0xFFF) } else { (w & 0x000F) | ((v as u16) << 4) };
+                img.write_at(o, &nw.to_le_bytes());
+            }
+            16 => img.write_at(base + c * 2, &(v as u16).to_le_bytes()),
+            _ => img.write_at(base + c * 4, &((v & 0x0FFF_FFFF) | (hi << 28)).to_le_bytes()),
+        };
+        set(&mut img, 0, (lay.eoc_max() & !0xFF) | u32::from(media), 0xF);
+        set(&mut img, 1, eoc1, 0xF);
+        if real {
+            for (c, (v, hi)) in ctx.fat.ent.iter() {
+                set(&mut img, *c, *v, *hi);
+            }
+            for c in taken.iter() {
+                set(&mut img, *c, lay.bad(), 0);
+            }
+            if free_hi != 0 && ft == 32 && n < 100_000 {
+                for c in 2..n + 2 {
+                    if !ctx.fat.ent.contains_key(&c) && !taken.contains(&c) {
+                        set(&mut img, c, 0, free_hi);
+                    }
+                }
+            }
+        } else {
+            // an inactive copy: stale content that must be neither read nor written
+            for c in 2..(n + 2).min(64) {
+                set(&mut img, c, lay.eoc_max(), 0x5);
+            }
+        }
+        if !pad_zero {
+            for c in n + 2..entries_per_fat.min(n + 2 + 4096) {
+                set(&mut img, c, lay.eoc_max(), 0);
+            }
+        }
+    }
+    // ---- FSInfo
+    if ft == 32 && fis != 0 && fis < rsvd {
+        let used = ctx.fat.ent.len() as u64 + taken.len() as u64;
+        let free_exact = n - used;
+        let fi = vol.get("fsinfo").cloned().unwrap_or(json!({}));
+        let free = match fi.get("free") {
+            Some(Value::String(s)) if s == "unknown" => 0xFFFF_FFFFu64,
+            Some(Value::Number(x)) => x.as_u64().unwrap_or(0),
+            Some(Value::String(s)) if s == "low" => free_exact.saturating_sub(3),
+            Some(Value::String(s)) if s == "high" => (free_exact + 3).min(n),
+            _ => free_exact,
+        };
+        let next = match fi.get("next") {
+            Some(Value::String(s)) if s == "unknown" => 0xFFFF_FFFFu64,
+            Some(Value::Number(x)) => x.as_u64().unwrap_or(2),
+            _ => 2,
+        };
+        let mut s = vec![0u8; bps as usize];
+        s[0..4].copy_from_slice(&0x4161_5252u32.to_le_bytes());
+        s[484..488].copy_from_slice(&0x6141_7272u32.to_le_bytes());
+        s[488..492].copy_from_slice(&(free as u32).to_le_bytes());
+        s[492..496].copy_from_slice(&(next as u32).to_le_bytes());
+        s[508..512].copy_from_slice(&0xAA55_0000u32.to_le_bytes());
+        img.write_at(fis * bps, &s);
+    }
+    let key = vol.to_string();
+    TRUTH.with(|t| t.borrow_mut().insert(key, Value::Array(ctx.truth)));
+    Ok(img)
 }
